@@ -3,6 +3,7 @@ from mirlib import *
 from rules import vmx, psc, c05
 from rules.psc import sym, strip, unref
 from rules.shared import deref
+from rules import shared as _shared
 
 META = {
     'title': 'Arrays and strings: shared by reference, indexed exactly, measured in characters',
@@ -273,6 +274,8 @@ def run(ctx, rep):
         rep.ob(ok and seen and terr, 'R13.5', name, 'integer index test', 'index.tag() == Int is established before as_int(); otherwise a TypeError', fn.loc())
 
     check_aliasing(ctx, rep, 'R13.6')
+    rep.rule('R13.9', 'text is made of characters everywhere, literals included: no single byte of a text is turned into a character unless it was tested to be ASCII')
+    check_no_byte_chars(ctx, rep, 'R13.9')
 
 
 def resolve_unit(fn, v):
@@ -306,6 +309,36 @@ def borrows_object_payload(v, depth=0):
         if v[1] in ('object::Object::as_str', 'object::Object::as_vec', 'object::Object::as_str_unchecked', 'object::Object::as_vec_unchecked'):
             return True
     return any(borrows_object_payload(x, depth + 1) for x in v if isinstance(x, tuple))
+
+
+def payload_views(f, reads):
+    """locals of f that may hold a borrowed view of an Object payload (flow-insensitive; copies end the borrow by type)"""
+    def can_borrow(l):
+        ty = f.local_ty(l) or ''
+        return '&' in ty or "'" in ty or '*const' in ty or '*mut' in ty
+    views = set()
+    for b, t in f.calls():
+        if callee_name(t) in reads:
+            views.add(t['dest']['local'])
+    changed = True
+    while changed:
+        changed = False
+        for b, si, st in f.stmts():
+            if st['k'] == 'assign':
+                d = st['place']['local']
+                if d not in views and can_borrow(d) and (_shared.LocalFlow.locals_of(st['rv']) & views):
+                    views.add(d)
+                    changed = True
+        for b, t in f.calls():
+            d = t['dest']['local']
+            if d in views or not can_borrow(d):
+                continue
+            if any(callee_name(t).endswith(c) for c in COPIES):
+                continue
+            if any(op_base_local(a) in views for a in t['args']):
+                views.add(d)
+                changed = True
+    return views
 
 
 def check_aliasing(ctx, rep, rule):
@@ -342,7 +375,54 @@ def check_aliasing(ctx, rep, rule):
                 for a in tt['args']:
                     if borrows_object_payload(sym(f, a)):
                         flows = True
+            # the same question over every definition of every local (a view chosen by a branch, wrapped in Cow::Borrowed / Some,
+            # unwrapped again): a local holds a VIEW of a payload when it is computed from one and its type can still borrow
+            # (a reference or a lifetime in it); `to_owned` and friends return a type that cannot
+            views = payload_views(f, READS)
+            for mb in mut_blocks:
+                tt = f.term(mb)
+                for a in tt['args'][1:]:
+                    if op_base_local(a) in views:
+                        flows = True
             rep.ob(not flows, rule, f.path, 'read of another Object while holding &mut (%s)' % callee_name(t).split('::')[-1],
                    'a borrowed view of an Object (which may be the very object being mutated: `s[0] = s`) is passed into the mutation; copy it first',
                    span_loc(t['span']))
     rep.count('alias_candidates', n)
+
+
+def check_no_byte_chars(ctx, rep, rule):
+    """text is a sequence of characters.  Turning a single byte of it into a character (`b as char`, char::from(b)) is right for
+    ASCII only: every other character is several bytes, each of which would become a character of its own (`é` -> `Ã©`).  Every
+    byte-to-char conversion in the library needs a dominating test that the byte is ASCII (or a constant operand)."""
+    from rules.shared import int_of
+    F = ctx.facts()
+    n = 0
+    for key in sorted(F.fns):
+        fn = F.fns[key]
+        if fn.crate != 'lib' or key.startswith(('parser::tests', 'lexer::tests')) or '::tests::' in key:
+            continue
+        sites = []
+        for b, si, st in fn.stmts():
+            if st['k'] == 'assign' and st['rv']['k'] == 'cast' and str(st['rv'].get('to')) == 'char' and str(st['rv'].get('from')) == 'u8':
+                sites.append((b, st['rv']['op'], st['span'], '`as char`'))
+        for b, t in fn.calls():
+            nm = callee_name(t)
+            if nm in ('<char as core::convert::From<u8>>::from', 'core::char::convert::<impl core::convert::From<u8> for char>::from') or \
+                    (nm.endswith('::from') and 'From<u8>' in nm and 'char' in nm):
+                sites.append((b, t['args'][0], t['span'], 'char::from'))
+        for b, op, span, how in sites:
+            n += 1
+            if op.get('k') == 'const':
+                rep.good(rule, key, 'byte to char#%d' % n, 'constant operand', span_loc(span), nontrivial=False)
+                continue
+            val = psc.strip(sym(fn, op))
+            ok = False
+            for f in psc.facts_at(fn, b):
+                if f[0] in ('Lt', 'Le') and psc.strip(f[1]) == val and int_of(f[2]) is not None and int_of(f[2]) <= (128 if f[0] == 'Lt' else 127):
+                    ok = True
+                if f[0] == 'callbool' and f[1][1].endswith('::is_ascii') and f[2] is True and psc.strip(unref(f[1][2][0])) == val:
+                    ok = True
+            rep.ob(ok, rule, key, 'byte to char (%s)' % how, 'a byte becomes a character of its own only where it was tested to be ASCII: otherwise each byte of a multi-byte character turns into a separate (wrong) character', span_loc(span))
+    if not n:
+        rep.good(rule, 'crate', 'byte to char conversions', 'the library never turns a single byte into a character (0 conversions in %d functions)' % len([k for k in F.fns if F.fns[k].crate == 'lib']), None)
+    rep.count('byte_to_char_conversions', n)
